@@ -104,6 +104,26 @@ def main():
         if faults.get("get_func"):
             tracing.get_func = failing(tracing.get_func, "get_func")
         logger = L()
+        if spec.get("store_logger"):
+            # the shipped logger in front of a real (in-memory) SQLite store: what `monkeytype run` and trace(DefaultConfig()) use
+            from monkeytype.db.base import CallTraceStoreLogger
+            from monkeytype.db.sqlite import SQLiteStore
+
+            class SL(CallTraceStoreLogger):
+                def __init__(self, store):
+                    super().__init__(store)
+                    self.flushes = 0
+                    self.logged = 0
+
+                def log(self, trace):
+                    self.logged += 1
+                    return super().log(trace)
+
+                def flush(self):
+                    self.flushes += 1
+                    return super().flush()
+
+            logger = SL(SQLiteStore.make_store(":memory:"))
         pre = (lambda frame, event, arg: None) if spec.get("preprofiler") else None
         sys.setprofile(pre)
         callbacks = {"n": 0}
